@@ -94,6 +94,13 @@ def regex_unit(ctx):
 def units(ctx):
     us = [core.Unit('regex:tokens', regex_unit, 'z3-regex')]
     us += pyvc_units(lexer.contracts(), 'C03', lexer.setup)
+    # error positions are offsets into the text the HOST passed: the engine
+    # hands exactly that text to the parser (no normalisation in between)
+    from vlib.pyvc.unit import contract_unit
+    from contracts import core_glue
+    us += [contract_unit(c, world_setup=core_glue.setup)
+           for c in core_glue.contracts()
+           if c.short == 'factory.YaqlEngine.__call__']
     return us
 
 
@@ -106,7 +113,9 @@ def post(ctx, results):
     from vlib import core as _core
     failed = [o for r in results for o in r['obligations']
               if o['status'] == 'failed']
-    if not failed:
+    undecided = [o for r in results for o in r['obligations']
+                 if o['status'] == 'unknown']
+    if not failed and not undecided:
         return results
     texts = ["'\\xZZ'", '1' * 4301, "'\\N{nope}'"]
     # boundary values of every escape form (largest / out-of-range code
@@ -131,4 +140,19 @@ def post(ctx, results):
     for o in failed:
         if rep.get('status') == 'failed' and not o.get('replay'):
             o['replay'] = rep
+    if not failed and rep.get('status') == 'failed':
+        # nothing was refuted deductively (the function left the verifier's
+        # reach), but the replay corpus has a real failing input: reported
+        # as a BOUNDED finding next to the undecided obligations
+        results.append(dict(unit='replay:c03-corpus', seconds=0.0,
+                            obligations=[_core.ob(
+                                'bounded:c03-replay-corpus', 'failed',
+                                'bounded', 'cpython', 0.0, bounded=True,
+                                text='BOUNDED: the replay corpus (escape '
+                                     'boundary values, non-normalised text, '
+                                     'regex witnesses) parses to a statement '
+                                     'or a YAQL parsing error positioned '
+                                     'inside the text',
+                                detail=json.dumps(rep)[:800],
+                                replay=rep)]))
     return results
